@@ -644,52 +644,74 @@ pub fn observe(world: &World) -> Value {
         }
     }
 
-    // the publication server's content
+    // the publication server's content, per publisher it knows
     let per = publisher_objects(krill);
     let mut server: rp::Objects = rp::Objects::new();
-    let mut pubs = Map::new();
-    for (p, objs) in &per {
+    for objs in per.values() {
         for (uri, data) in objs {
             server.insert(uri.clone(), data.clone());
-        }
-        if !["ta", "A", "B", "C"].contains(&p.as_str()) {
-            let mut m = Map::new();
-            for (uri, data) in objs {
-                let n = uri.rsplit('/').next().unwrap_or("")
-                    .trim_start_matches('f').trim_end_matches(".bin")
-                    .to_string();
-                m.insert(n, json!(content_name(data)));
-            }
-            pubs.insert(p.clone(), Value::Object(m));
         }
     }
 
     // what is on disk for RRDP and rsync clients
     let repo_dir = world.env.dir.join("repo");
-    let (disk, serial_disk) = match rp::read_rrdp_snapshot(&repo_dir) {
-        Ok((objs, _, serial)) => (objs, serial as i64),
+    let (disk, session_disk, serial_disk)
+        = match rp::read_rrdp_snapshot(&repo_dir)
+    {
+        Ok((objs, session, serial)) => (objs, session, serial as i64),
         Err(e) => {
             problems.push(format!("rrdp files unreadable: {e}"));
-            (rp::Objects::new(), -1)
+            (rp::Objects::new(), String::new(), -1)
         }
     };
     let stats = krill.repo_manager().repo_stats().ok().map(|s| {
         serde_json::to_value(&s).unwrap_or(Value::Null)
     }).unwrap_or(Value::Null);
     let serial_server = stats["serial"].as_i64().unwrap_or(-2);
-    if serial_disk != serial_server {
+    let session_server = stats["session"].as_str().unwrap_or("").to_string();
+    if serial_disk != serial_server || session_disk != session_server {
         problems.push(format!(
-            "RrdpFilesStale: notification serial on disk {serial_disk}, \
-             server content serial {serial_server}"
+            "RrdpFilesStale: notification on disk has session \
+             {session_disk} serial {serial_disk}, the server's content \
+             session {session_server} serial {serial_server}"
         ));
     }
-    if disk != server {
-        let mut missing: Vec<&String> = server.keys().filter(|u| {
-            disk.get(*u) != server.get(*u)
-        }).collect();
-        let mut extra: Vec<&String> = disk.keys().filter(|u| {
-            !server.contains_key(*u)
-        }).collect();
+
+    // The external publishers as a client sees them: the objects served
+    // under their URI space (judged by KrillConcTrace against the serial
+    // execution), and whether the server knows the publisher.
+    let external = |uri: &str| -> Option<(String, String)> {
+        let rest = uri.strip_prefix(RSYNC_BASE)?;
+        let (p, file) = rest.split_once('/')?;
+        if p == "x" || p == "y" {
+            Some((p.to_string(), file.trim_start_matches('f')
+                .trim_end_matches(".bin").to_string()))
+        }
+        else {
+            None
+        }
+    };
+    let mut pubs = Map::new();
+    for p in ["x", "y"] {
+        let mut objs = Map::new();
+        for (uri, data) in &disk {
+            if let Some((owner, n)) = external(uri) && owner == p {
+                objs.insert(n, json!(content_name(data)));
+            }
+        }
+        pubs.insert(p.into(), json!({
+            "exists": per.contains_key(p), "objs": objs,
+        }));
+    }
+    // Everything the server holds for a publisher it knows must be what is
+    // served, and nothing else may be served outside the external spaces.
+    let mut missing: Vec<&String> = server.keys().filter(|u| {
+        disk.get(*u) != server.get(*u)
+    }).collect();
+    let mut extra: Vec<&String> = disk.keys().filter(|u| {
+        !server.contains_key(*u) && external(u).is_none()
+    }).collect();
+    if !missing.is_empty() || !extra.is_empty() {
         missing.sort();
         extra.sort();
         problems.push(format!(
@@ -699,10 +721,10 @@ pub fn observe(world: &World) -> Value {
         ));
     }
     let rsync = rp::read_rsync_tree(&repo_dir, RSYNC_BASE);
-    if rsync != server {
+    if rsync != disk {
         problems.push(format!(
-            "RsyncTreeDiffers: {} files on disk, {} on the server",
-            rsync.len(), server.len()
+            "RsyncTreeDiffers: {} files in the rsync tree, {} in the RRDP \
+             snapshot", rsync.len(), disk.len()
         ));
     }
 
@@ -738,6 +760,12 @@ pub fn observe(world: &World) -> Value {
             }
         }
         None => problems.push("no TA certificate".into()),
+    }
+    if !certs.contains_key("B") {
+        // B has no certificate (it was removed as a child): what it has
+        // configured cannot be valid; KrillConcTrace compares certB with
+        // the entitlement of the serial execution.
+        want_vrps.retain(|v| !v.0.starts_with("10.0."));
     }
     if vrps != want_vrps {
         problems.push(format!(
